@@ -1,8 +1,8 @@
 (* C10 -- rendering shows exactly the visible tree, in order, and save/TOC agree with it.
    Only statements.  Model: coq/card/Render.v (+Spec.v for `shown`, `event_paths`); proofs: RenderFacts.v.
    `pretty` (PrettyTable's layout) is universally quantified: nothing is assumed about it. *)
-From Skv Require Import PyStr Json CardStr Path Tree Ops Render Spec
-                        TreeFacts OpsFacts RenderFacts.
+From Skv Require Import PyStr Json CardStr Path Tree Ops Render Spec Init
+                        TreeFacts OpsFacts RenderFacts InitFacts.
 Open Scope N_scope.
 
 (* one event per section that is visible and has no invisible or folded ancestor (`shown`), in tree
@@ -17,6 +17,18 @@ Print Assumptions C10_render_spec.
 Theorem C10_reachable_wf : forall ops, wf_dict (data (run_card ops empty_card)).
 Proof. exact reachable_wf. Qed.
 Print Assumptions C10_reachable_wf.
+
+(* ... and for every card CONSTRUCTED from any template / model_diagram (coq/card/Init.v) and then edited by any operation
+   sequence: the rendered paths are the shown paths, one event per shown section with its depth and its section, and the
+   TOC lists the rendered headings *)
+Theorem C10_constructed_render : forall cfg t dg params html ops,
+  let d := data (run_card ops (fst (init_card cfg t dg params html))) in
+  event_paths d = filter (fun q => shown q d) (paths d)
+  /\ map (fun e => (fst e, Some (snd e))) (render_events d)
+     = map (fun q => (length q, lookup q d)) (filter (fun q => shown q d) (paths d))
+  /\ toc_events d = map toc_of_event (render_events d).
+Proof. exact constructed_render. Qed.
+Print Assumptions C10_constructed_render.
 
 Theorem C10_rendered_paths : forall d, wf_dict d ->
   event_paths d = filter (fun q => shown q d) (paths d).
